@@ -1078,3 +1078,375 @@ Proof.
   intros Hw. rewrite parse_depfile_runR. unfold p_init, rules_sem.
   apply run_rules; [exact Hw|right; reflexivity].
 Qed.
+
+(* ========================================================================================== *)
+(* Part G.  The specification functions; the C15 theorems.                                     *)
+(* ========================================================================================== *)
+
+Lemma mem_false_iff x l : mem_bytes x l = false <-> ~ In x l.
+Proof.
+  rewrite <- mem_bytes_In. destruct (mem_bytes x l); split; intros H; congruence.
+Qed.
+
+Lemma dedup_acc_In x : forall l acc, In x (dedup_acc acc l) <-> In x acc \/ In x l.
+Proof.
+  induction l as [|y l IH]; intros acc; cbn [dedup_acc In]; [tauto|].
+  rewrite IH. destruct (mem_bytes y acc) eqn:E.
+  - apply mem_bytes_In in E. split; [tauto|]. intros [H|[<-|H]]; tauto.
+  - rewrite in_app_iff. cbn [In]. tauto.
+Qed.
+
+Lemma NoDup_snoc {A} (y : A) : forall acc, NoDup acc -> ~ In y acc -> NoDup (acc ++ [y]).
+Proof.
+  induction acc as [|a acc IH]; intros Hnd Hni; cbn [app].
+  - constructor; [intros []|constructor].
+  - inversion Hnd as [|? ? Ha Hnd']; subst. constructor.
+    + rewrite in_app_iff. cbn [In]. intros [H|[H|[]]]; [contradiction|]. apply Hni. left. symmetry. exact H.
+    + apply IH; [exact Hnd'|]. intros H. apply Hni. right. exact H.
+Qed.
+
+Lemma dedup_acc_NoDup : forall l acc, NoDup acc -> NoDup (dedup_acc acc l).
+Proof.
+  induction l as [|y l IH]; intros acc Hnd; cbn [dedup_acc]; [exact Hnd|].
+  apply IH. destruct (mem_bytes y acc) eqn:E; [exact Hnd|].
+  apply mem_false_iff in E. apply NoDup_snoc; assumption.
+Qed.
+
+Lemma dedup_acc_app : forall a c acc, dedup_acc acc (a ++ c) = dedup_acc (dedup_acc acc a) c.
+Proof. induction a as [|y a IH]; intros c acc; cbn [app dedup_acc]; [reflexivity|apply IH]. Qed.
+
+Lemma dedup_acc_fresh : forall l acc, NoDup (acc ++ l) -> dedup_acc acc l = acc ++ l.
+Proof.
+  induction l as [|y l IH]; intros acc Hnd; cbn [dedup_acc]; [symmetry; apply app_nil_r|].
+  assert (E : mem_bytes y acc = false).
+  { apply mem_false_iff. apply NoDup_remove_2 in Hnd. intros Hin. apply Hnd.
+    apply in_or_app. left. exact Hin. }
+  rewrite E. replace (acc ++ y :: l) with ((acc ++ [y]) ++ l) in * by (rewrite <- app_assoc; reflexivity).
+  apply IH. exact Hnd.
+Qed.
+
+(* [dedup]: every name once, in order of first occurrence *)
+Theorem dedup_In x l : In x (dedup l) <-> In x l.
+Proof. unfold dedup. rewrite dedup_acc_In. cbn [In]. tauto. Qed.
+
+Theorem dedup_NoDup l : NoDup (dedup l).
+Proof. apply dedup_acc_NoDup. constructor. Qed.
+
+Theorem dedup_id l : NoDup l -> dedup l = l.
+Proof. intros H. unfold dedup. rewrite dedup_acc_fresh; [reflexivity|exact H]. Qed.
+
+Lemma targets_sem_fresh : forall ts o i po, (forall t, In t ts -> ~ In t i) ->
+  targets_sem o i po ts = (dedup_acc o ts, po).
+Proof.
+  induction ts as [|t ts IH]; intros o i po H; cbn [targets_sem dedup_acc]; [reflexivity|].
+  assert (E : mem_bytes t i = false) by (apply mem_false_iff; apply H; left; reflexivity).
+  rewrite E. apply IH. intros t' Ht'. apply H. right. exact Ht'.
+Qed.
+
+Lemma deps_sem_clean : forall ds i, deps_sem i false ds = Some (dedup_acc i ds).
+Proof.
+  induction ds as [|d ds IH]; intros i; cbn [deps_sem dedup_acc]; [reflexivity|].
+  destruct (mem_bytes d i); apply IH.
+Qed.
+
+Lemma deps_sem_In : forall ds i po i', deps_sem i po ds = Some i' ->
+  forall x, In x i' <-> In x i \/ In x ds.
+Proof.
+  induction ds as [|d ds IH]; intros i po i' H x; cbn [deps_sem] in H.
+  - inversion H; subst. cbn [In]. tauto.
+  - destruct (mem_bytes d i) eqn:E.
+    + rewrite (IH _ _ _ H). apply mem_bytes_In in E. cbn [In]. split; [tauto|].
+      intros [Hi|[<-|Hi]]; tauto.
+    + destruct po; [discriminate|]. rewrite (IH _ _ _ H), in_app_iff. cbn [In]. tauto.
+Qed.
+
+Lemma targets_sem_po_true : forall ts o i, snd (targets_sem o i true ts) = true.
+Proof.
+  induction ts as [|t ts IH]; intros o i; cbn [targets_sem]; [reflexivity|].
+  destruct (mem_bytes t i); apply IH.
+Qed.
+
+Lemma targets_sem_poison : forall ts o i po t, In t ts -> In t i -> snd (targets_sem o i po ts) = true.
+Proof.
+  induction ts as [|t0 ts IH]; intros o i po t Hin Hi; [destruct Hin|].
+  cbn [targets_sem]. destruct (mem_bytes t0 i) eqn:E; [apply targets_sem_po_true|].
+  destruct Hin as [->|Hin].
+  - apply mem_bytes_In in Hi. congruence.
+  - eapply IH; eassumption.
+Qed.
+
+Lemma deps_sem_poisoned_new : forall ds i d, In d ds -> ~ In d i -> deps_sem i true ds = None.
+Proof.
+  induction ds as [|d0 ds IH]; intros i d Hin Hni; [destruct Hin|].
+  cbn [deps_sem]. destruct (mem_bytes d0 i) eqn:E; [|reflexivity].
+  destruct Hin as [->|Hin].
+  - apply mem_bytes_In in E. contradiction.
+  - eapply IH; eassumption.
+Qed.
+
+(* ---------------------------------------------------------------------------------------- *)
+(* C15_roundtrip *)
+
+Theorem C15_roundtrip_gen b l ts ds :
+  ts <> [] -> Forall (wfP b) ts -> Forall (wfP b) ds ->
+  parse_depfile (render_gen b l ts ds) = DOk (dedup ts) (dedup ds).
+Proof.
+  intros Hne Hwt Hwd.
+  assert (E : render_gen b l ts ds = render_rules_gen b l [(ts, ds)]).
+  { unfold render_rules_gen. cbn [map concat fst snd]. symmetry. apply app_nil_r. }
+  rewrite E, parse_render_rules_gen.
+  - unfold rules_sem. rewrite rules_sem_acc_cons. cbn [fst snd].
+    rewrite targets_sem_fresh by (intros t _ []). cbn [fst snd].
+    rewrite deps_sem_clean. reflexivity.
+  - constructor; [|constructor]. repeat split; assumption.
+Qed.
+
+(* One rule, any layout: targets once each, dependencies once each, both in order of first
+   occurrence, and kept apart (a name that is both a target and a dependency is reported in both
+   lists; the parser does not subtract). *)
+Theorem C15_roundtrip l ts ds :
+  ts <> [] -> Forall (fun x => wf_name x = true) ts -> Forall (fun x => wf_name x = true) ds ->
+  parse_depfile (render l ts ds) = DOk (dedup ts) (dedup ds).
+Proof. apply (C15_roundtrip_gen false). Qed.
+
+(* the same with ':' written as "\:" ; the class of names is larger *)
+Theorem C15_roundtrip_colon l ts ds :
+  ts <> [] -> Forall (fun x => wf_name_colon x = true) ts ->
+  Forall (fun x => wf_name_colon x = true) ds ->
+  parse_depfile (render_colon l ts ds) = DOk (dedup ts) (dedup ds).
+Proof. apply (C15_roundtrip_gen true). Qed.
+
+(* ---------------------------------------------------------------------------------------- *)
+(* C15_multi_rule *)
+
+(* no target of a rule is a dependency of an earlier rule *)
+Definition no_reappear (rules : list (list bytes * list bytes)) : Prop :=
+  forall pre r post, rules = pre ++ r :: post ->
+  forall t, In t (fst r) -> ~ In t (concat (map snd pre)).
+
+Lemma rules_sem_acc_union : forall rules o i,
+  (forall pre r post, rules = pre ++ r :: post ->
+     forall t, In t (fst r) -> ~ In t i /\ ~ In t (concat (map snd pre))) ->
+  rules_sem_acc o i rules
+  = DOk (dedup_acc o (concat (map fst rules))) (dedup_acc i (concat (map snd rules))).
+Proof.
+  induction rules as [|r rs IH]; intros o i H; [reflexivity|].
+  rewrite rules_sem_acc_cons. cbn [map concat].
+  rewrite targets_sem_fresh.
+  2:{ intros t Ht. apply (H [] r rs eq_refl t Ht). }
+  cbn [fst snd]. rewrite deps_sem_clean, !dedup_acc_app. apply IH.
+  intros pre r' post E t Ht.
+  destruct (H (r :: pre) r' post) with (t := t) as [H1 H2]; [rewrite E; reflexivity|exact Ht|].
+  cbn [map concat] in H2. rewrite in_app_iff in H2. rewrite dedup_acc_In. tauto.
+Qed.
+
+Theorem C15_multi_rule_gen b l rules :
+  Forall (wf_rule b) rules -> no_reappear rules ->
+  parse_depfile (render_rules_gen b l rules)
+  = DOk (dedup (concat (map fst rules))) (dedup (concat (map snd rules))).
+Proof.
+  intros Hw Hno. rewrite parse_render_rules_gen by exact Hw.
+  unfold rules_sem, dedup. apply rules_sem_acc_union.
+  intros pre r post E t Ht. split; [intros []|]. eapply Hno; eassumption.
+Qed.
+
+(* Several rules are unified: outs = all targets, ins = all dependencies (first occurrences),
+   provided no dependency reappears as a target of a later rule. *)
+Theorem C15_multi_rule l rules :
+  Forall (wf_rule false) rules -> no_reappear rules ->
+  parse_depfile (render_rules l rules)
+  = DOk (dedup (concat (map fst rules))) (dedup (concat (map snd rules))).
+Proof. apply (C15_multi_rule_gen false). Qed.
+
+(* ---------------------------------------------------------------------------------------- *)
+(* C15_rejects_inputs_have_inputs *)
+
+Lemma rules_sem_acc_pre : forall pre o i rest,
+  rules_sem_acc o i (pre ++ rest) = DErr ErrInputsHaveInputs
+  \/ exists o' i', (forall x, In x i' <-> In x i \/ In x (concat (map snd pre)))
+                   /\ rules_sem_acc o i (pre ++ rest) = rules_sem_acc o' i' rest.
+Proof.
+  induction pre as [|r pre IH]; intros o i rest.
+  - right. exists o, i. split; [cbn; tauto|reflexivity].
+  - cbn [app]. rewrite rules_sem_acc_cons.
+    destruct (deps_sem i _ (snd r)) as [i1|] eqn:Ed; [|left; reflexivity].
+    destruct (IH (fst (targets_sem o i false (fst r))) i1 rest) as [He|(o' & i' & Hin & He)].
+    + left. exact He.
+    + right. exists o', i'. split; [|exact He].
+      intros x. rewrite Hin, (deps_sem_In _ _ _ _ Ed). cbn [map concat]. rewrite in_app_iff. tauto.
+Qed.
+
+Theorem C15_rejects_inputs_have_inputs_gen b l pre ts ds post t d :
+  Forall (wf_rule b) (pre ++ (ts, ds) :: post) ->
+  In t ts -> In t (concat (map snd pre)) ->       (* a target that was a dependency before *)
+  In d ds -> ~ In d (concat (map snd pre)) ->     (* and that brings a new dependency *)
+  parse_depfile (render_rules_gen b l (pre ++ (ts, ds) :: post)) = DErr ErrInputsHaveInputs.
+Proof.
+  intros Hw Ht Htpre Hd Hdpre. rewrite parse_render_rules_gen by exact Hw. unfold rules_sem.
+  destruct (rules_sem_acc_pre pre [] [] ((ts, ds) :: post)) as [He|(o' & i' & Hin & He)];
+    [exact He|].
+  rewrite He, rules_sem_acc_cons. cbn [fst snd].
+  rewrite (targets_sem_poison ts o' i' false t Ht) by (apply Hin; right; exact Htpre).
+  rewrite (deps_sem_poisoned_new ds i' d Hd); [reflexivity|].
+  rewrite Hin. cbn [In]. tauto.
+Qed.
+
+Theorem C15_rejects_inputs_have_inputs l pre ts ds post t d :
+  Forall (wf_rule false) (pre ++ (ts, ds) :: post) ->
+  In t ts -> In t (concat (map snd pre)) ->
+  In d ds -> ~ In d (concat (map snd pre)) ->
+  parse_depfile (render_rules l (pre ++ (ts, ds) :: post)) = DErr ErrInputsHaveInputs.
+Proof. apply (C15_rejects_inputs_have_inputs_gen false). Qed.
+
+(* ---------------------------------------------------------------------------------------- *)
+(* C15_rejects_no_colon *)
+
+Lemma run_no_colon b : forall names n o em, wfP b n -> Forall (wfP b) names ->
+  runR (join_sp (map (enc_gen b) (n :: names)) ++ [10]) (mkP o [] false true false em)
+  = DErr ErrNoColon.
+Proof.
+  induction names as [|n2 names IH]; intros n o em Hn Hw.
+  - cbn [map]. rewrite join_sp_one.
+    rewrite (run_name b n _ _ _ _ Hn (term_nl [])), (absorb_target b n _ _ _ _ _ Hn).
+    rewrite (run_term _ _ _ _ (term_nl [])), runR_nil. reflexivity.
+  - inversion Hw as [|? ? Hn2 Hw']; subst.
+    cbn [map]. rewrite join_sp_cons2, <- app_assoc. cbn [app].
+    rewrite (run_name b n _ _ _ _ Hn (term_sp _)), (absorb_target b n _ _ _ _ _ Hn), run_sp.
+    change (enc_gen b n2 :: map (enc_gen b) names) with (map (enc_gen b) (n2 :: names)).
+    unfold tgt_po. cbn [mem_bytes]. apply IH; assumption.
+Qed.
+
+Theorem C15_rejects_no_colon_gen b names :
+  names <> [] -> Forall (wfP b) names ->
+  parse_depfile (render_no_colon b names) = DErr ErrNoColon.
+Proof.
+  intros Hne Hw. destruct names as [|n names]; [congruence|].
+  inversion Hw; subst. rewrite parse_depfile_runR. unfold render_no_colon, p_init.
+  apply run_no_colon; assumption.
+Qed.
+
+(* a line of names and no colon anywhere at the end of a name: "expected ':' in depfile" *)
+Theorem C15_rejects_no_colon names :
+  names <> [] -> Forall (fun x => wf_name x = true) names ->
+  parse_depfile (join_sp (map enc_name names) ++ [10]) = DErr ErrNoColon.
+Proof. apply (C15_rejects_no_colon_gen false). Qed.
+
+(* names made of plain bytes only are written verbatim by enc_name *)
+Lemma enc_name_plain_id x : forallb is_plain x = true -> enc_name x = x.
+Proof.
+  induction x as [|c x IH]; [reflexivity|]. cbn [forallb]. intros H.
+  apply andb_true_iff in H. destruct H as [Hc Hx].
+  unfold enc_name in *. cbn [enc_gen]. rewrite (IH Hx).
+  destruct (is_plain_facts c Hc) as (H92 & H32 & H35 & H36 & _).
+  unfold enc_byte. apply N.eqb_neq in H92, H32, H35, H36. rewrite H92, H32, H35, H36. reflexivity.
+Qed.
+
+(* ---------------------------------------------------------------------------------------- *)
+(* Printable ASCII: which bytes are covered *)
+
+Definition bad_printable : bytes := [42; 59; 60; 62; 94; 96; 124].   (*  * ; < > ^ ` |  *)
+Definition escapable : bytes := [32; 35; 36; 92].                    (*  SP # $ BS  *)
+
+(* for every printable ASCII byte: it is usable in a name iff it is not one of * ; < > ^ ` |,
+   and the usable ones are the plain class plus SP # $ BS *)
+Lemma plain_or_escapable_table c : 32 <= c <= 126 ->
+  allowed c = negb (mem_byte c bad_printable)
+  /\ allowed c = (is_plain c || mem_byte c escapable)
+  /\ is_plain c = negb (mem_byte c bad_printable || mem_byte c escapable).
+Proof.
+  intros Hc.
+  assert (T : forallb (fun n =>
+                let c := N.of_nat n in
+                Bool.eqb (allowed c) (negb (mem_byte c bad_printable))
+                && Bool.eqb (allowed c) (is_plain c || mem_byte c escapable)
+                && Bool.eqb (is_plain c) (negb (mem_byte c bad_printable || mem_byte c escapable)))
+              (seq 32 95) = true) by (vm_compute; reflexivity).
+  rewrite forallb_forall in T. specialize (T (N.to_nat c)).
+  rewrite N2Nat.id in T. cbv zeta in T.
+  assert (Hin : In (N.to_nat c) (seq 32 95)) by (apply in_seq; lia).
+  apply T in Hin. apply andb_true_iff in Hin. destruct Hin as [Hin H3].
+  apply andb_true_iff in Hin. destruct Hin as [H1 H2].
+  apply Bool.eqb_prop in H1, H2, H3. auto.
+Qed.
+
+(* FINDING.  Each of the seven printable bytes  * ; < > ^ ` |  splits a file name in two: the
+   dependency "a<c>b" is read back as the two dependencies "a" and "b". *)
+Theorem C15_refuted_unlisted_punct c : In c bad_printable ->
+  parse_depfile (render OneLine [[116]] [[97; c; 98]]) = DOk [[116]] [[97]; [98]].
+Proof.
+  intros H. cbn [bad_printable In] in H.
+  destruct H as [<-|[<-|[<-|[<-|[<-|[<-|[<-|[]]]]]]]]; vm_compute; reflexivity.
+Qed.
+
+Definition printable (c : byte) : bool := N.leb 32 c && N.leb c 126.
+
+(* The property as quantified ("all names over printable ASCII ...") is false of the code. *)
+Definition C15_roundtrip_printable_full : Prop :=
+  forall l ts ds, ts <> [] ->
+    Forall (fun x => x <> [] /\ forallb printable x = true) ts ->
+    Forall (fun x => x <> [] /\ forallb printable x = true) ds ->
+    parse_depfile (render l ts ds) = DOk (dedup ts) (dedup ds).
+
+Theorem C15_roundtrip_printable_refuted : ~ C15_roundtrip_printable_full.
+Proof.
+  intros H.
+  assert (E : parse_depfile (render OneLine [[116]] [[97; 42; 98]])
+              = DOk (dedup [[116]]) (dedup [[97; 42; 98]])).
+  { apply H; [discriminate| |]; repeat constructor; discriminate. }
+  pose proof (C15_refuted_unlisted_punct 42 (or_introl eq_refl)) as Q.
+  pose proof (eq_trans (eq_sym Q) E) as X. vm_compute in X. discriminate.
+Qed.
+
+Theorem C15_refuted_unlisted_punct_ex :
+  exists t n, forallb printable n = true /\
+    parse_depfile (render OneLine [t] [n]) <> DOk [t] [n].
+Proof.
+  exists [116], [97; 42; 98]. split; [reflexivity|].
+  intros Hc. pose proof (C15_refuted_unlisted_punct 42 (or_introl eq_refl)) as Q.
+  pose proof (eq_trans (eq_sym Q) Hc) as X. discriminate.
+Qed.
+
+(* ---------------------------------------------------------------------------------------- *)
+(* Every clause of wf_name is needed (witnesses, by evaluation) *)
+
+(* name ending in ':' *)
+Example wf_needs_no_final_colon :
+  parse_depfile (render OneLine [[116]] [[97; 58]; [98]]) = DOk [[116]] [[97]; [98]]
+  /\ parse_depfile (render_colon OneLine [[116]] [[97; 58]; [98]]) = DOk [[116]] [[97; 92]; [98]].
+Proof. split; vm_compute; reflexivity. Qed.
+
+(* backslash before '$':  a\$b  is read as  a\$  and  b *)
+Example wf_needs_no_bs_dollar :
+  parse_depfile (render OneLine [[116]] [[97; 92; 36; 98]]) = DOk [[116]] [[97; 92; 36]; [98]].
+Proof. vm_compute; reflexivity. Qed.
+
+(* backslash before ':' with the unescaped-colon encoder:  a\:b  loses the backslash *)
+Example wf_needs_no_bs_colon :
+  parse_depfile (render OneLine [[116]] [[97; 92; 58; 98]]) = DOk [[116]] [[97; 58; 98]]
+  /\ parse_depfile (render_colon OneLine [[116]] [[97; 92; 58; 98]]) = DOk [[116]] [[97; 92; 58; 98]].
+Proof. split; vm_compute; reflexivity. Qed.
+
+(* odd run of backslashes at the end of a name: glued to the next name *)
+Example wf_needs_even_trailing_bs :
+  parse_depfile (render OneLine [[116]] [[97; 92]; [98]]) = DOk [[116]] [[97; 32; 98]]
+  /\ parse_depfile (render OneLine [[116]] [[97; 92; 92]; [98]]) = DOk [[116]] [[97; 92; 92]; [98]].
+Proof. split; vm_compute; reflexivity. Qed.
+
+(* a single backslash at the end of the last name of a line is a line continuation: the next
+   rule's target becomes a dependency *)
+Example wf_needs_even_trailing_bs_eol :
+  parse_depfile (render_rules OneLine [([[116]], [[97; 92]]); ([[117]], [[98]])])
+  = DOk [[116]] [[97]; [117]; [98]].
+Proof. vm_compute; reflexivity. Qed.
+
+(* TAB, and an empty name *)
+Example wf_needs_no_tab :
+  parse_depfile (render OneLine [[116]] [[97; 9; 98]]) = DOk [[116]] [[97]; [98]].
+Proof. vm_compute; reflexivity. Qed.
+
+(* Outside wf_name but surviving by accident: a name ENDING in backslash-dollar ("a\$" is written
+   "a\$$", read as "a\$" followed by a lone '$' that is swallowed as a delimiter). *)
+Example accidental_survivor :
+  wf_name [97; 92; 36] = false
+  /\ parse_depfile (render OneLine [[116]] [[97; 92; 36]; [98]]) = DOk [[116]] [[97; 92; 36]; [98]].
+Proof. split; vm_compute; reflexivity. Qed.
